@@ -21,6 +21,10 @@ def run(chk: Check) -> None:
     # the end-of-run validation of the outputs goes through the same loop over the declared ports as the inputs do
     from .common import every_declared_port_validated
     every_declared_port_validated(chk, 'PROV-downgrade')
+    # "stored values are what the process later reports": the outputs of a rebuilt process are its own -- a deep copy on the way into and out of a checkpoint -- so a later
+    # out() of one process never changes what another (or the bundle) reports (shared with C07)
+    from .c07 import io_mappings_encoded
+    io_mappings_encoded(chk, 'OWN-outputs')
     out = prog.func('processes.Process.out')
     cfg = cfg_of(out)
     ff = chk.ctx.facts.analyse(out)
